@@ -28,6 +28,8 @@ pub enum PollRes {
 pub enum HostEv {
     PushKeys(Vec<u8>),
     DrainDisplay,
+    /// the host withdraws the type-ahead: everything still queued in the keyboard buffer is dropped
+    ClearKeys,
     HoldKb { write: bool },
     ReleaseKb,
     HoldDisp { write: bool },
@@ -177,6 +179,11 @@ impl Host {
             HostEv::PushKeys(bs) => {
                 if let Some(k) = st.kb.as_mut() {
                     k.with_mut(|q| q.extend(bs.iter().copied()));
+                }
+            }
+            HostEv::ClearKeys => {
+                if let Some(k) = st.kb.as_mut() {
+                    k.with_mut(|q| q.clear());
                 }
             }
             HostEv::DrainDisplay => {
